@@ -125,6 +125,7 @@ type Case struct {
 	//   resolve-env text in the process environment, `${C03_X}` answered by ucfg.ResolveEnv (parse.EnvConfig)
 	//   envcfg      v: "${x}", x: <value> in a second configuration passed with ucfg.Env at the read
 	//   default     v: "${nope:<text>}"                           (the default text of an expansion, re-parsed)
+	//   alt         v: "${one:+<text>}", one: 1                    (the alternative text of an expansion, re-parsed)
 	//   pieces      v: the text cut at Cuts into pieces, piece i delivered as Kinds[i], + "${e}" (see buildPieces)
 	Deliv string `json:"deliv"`
 	Cut   int    `json:"cut,omitempty"`
@@ -336,7 +337,17 @@ func deliver0(c Case) (*ucfg.Config, []ucfg.Option, eff, error) {
 		if strings.ContainsAny(text, "${}:\\") {
 			return nil, nil, eff{kind: "undeliverable"}, nil // syntax of the expansion itself
 		}
+		if strings.HasPrefix(text, "+") || strings.HasPrefix(text, "?") {
+			return nil, nil, eff{kind: "undeliverable"}, nil // `:+` and `:?` are other operators
+		}
 		cfg, err := ucfg.NewFrom(map[string]interface{}{"v": "${nope:" + text + "}"}, ucfg.VarExp)
+		return cfg, nil, c.effText(text, parse.DefaultConfig), err
+	case "alt":
+		text := c.Src.text()
+		if strings.ContainsAny(text, "${}:\\") {
+			return nil, nil, eff{kind: "undeliverable"}, nil
+		}
+		cfg, err := ucfg.NewFrom(map[string]interface{}{"v": "${one:+" + text + "}", "one": 1}, ucfg.VarExp)
 		return cfg, nil, c.effText(text, parse.DefaultConfig), err
 	case "pieces":
 		text := c.Src.text()
@@ -442,7 +453,10 @@ func runCase(c Case, r *runlog.R) error {
 		r.Class("resolver parse.Config=" + c.pcName())
 	case "pieces":
 		_, _, shape := buildPieces(c.Src.text(), c.Cuts, c.Kinds)
-		r.Class("pieces=" + shape)
+		r.Class(fmt.Sprintf("pieces: %d", len(shape)))
+		for _, k := range []struct{ l, name string }{{"l", "literal"}, {"s", "string"}, {"n", "number"}, {"r", "resolver"}} {
+			r.ClassIf(strings.Contains(shape, k.l), "pieces with a "+k.name+" piece")
+		}
 	}
 	r.ClassIf(c.IC, "IgnoreCommas option")
 	if c.Deliv != "lit" && c.Deliv != "ref" && c.Deliv != "envcfg" && e.kind == "num" {
